@@ -454,6 +454,8 @@ def run_scenario(sc, idx):
         if not ec.get("judge", True):
             continue
         for f in ("login_ok", "admin_err", "n_z"):
+            if ec[f] is None:
+                continue  # not determined by the property (see abstract_obs)
             if ec[f] != oc[f]:
                 diffs.append("client %s %s: sim=%s binary=%s" % (ec["name"], f, ec[f], oc[f]))
     return {"name": sc["name"], "ok": not diffs, "diffs": diffs, "observed": obs}
